@@ -3,6 +3,7 @@ import io
 import re
 
 from ..framework import Check
+from .c13 import nl_lines
 from .. import blocklib as bl, lib
 
 LINE_POOL = ["BEGIN X", "END", "  BEGIN", "data 1", "STOP here", "B", "", "XEND", "--", "# c", "E", "BEGIN END", "GIN X B"]
@@ -101,7 +102,7 @@ class CHECK(Check):
                         break
                 one_line = (raw.count(10) == 0) or (raw.count(10) == 1 and raw[-1] == 10)
             else:
-                first = raw.splitlines(keepends=True)[0] if raw else ""
+                first = nl_lines(raw)[0] if raw else ""
                 exp = -1
                 for i, bd in enumerate(case["blocks"]):
                     if re.search(bl.regex_of(bd["begin"]), first) is not None:
@@ -129,7 +130,7 @@ class CHECK(Check):
 
     def shrink(self, case):
         if not case["binary"]:
-            lines = case["content"].splitlines(keepends=True)
+            lines = nl_lines(case["content"])
             for i in range(len(lines)):
                 c = dict(case)
                 c["content"] = "".join(lines[:i] + lines[i + 1:])
